@@ -2,7 +2,7 @@
    `orc` is the blob oracle (vellum / roaring / snappy decoding done by the harness co-process). *)
 From Coq Require Import List NArith ZArith Bool.
 Import ListNotations.
-Require Import Sx Bytes Kernel Footer Ref Spec Wire Layout SpecMerge Iter Iter1 Automata Dict Pool BuildReuse IO Cancel.
+Require Import Sx Bytes Kernel Footer Ref Spec Wire Layout SpecMerge Iter Iter1 Automata Dict Pool BuildReuse IO Cancel VecSpec VecCache VecFault.
 Open Scope N_scope.
 
 (* ---- C20: (1 ops) with op 0 = AddRef, 1 = DecRef/Close ---- *)
@@ -257,6 +257,104 @@ Definition h_cancel (args : list sx) : sx :=
   | _ => sxerr 142
   end.
 
+(* ---- C14/C15: vector specification ---- *)
+Definition sx_of_vfield (v : vfield) : sx :=
+  L [B (vf_name v); A (vf_dims v); B (vf_sim v); B (vf_opt v);
+     L (map (fun dv => L [A (fst dv); sxLA (snd dv)]) (vf_vecs v))].
+Definition vfield_of_sx (s : sx) : option vfield :=
+  match s with
+  | L [B n; A d; B sim; B opt; L vs] =>
+      match mapo (fun e => match e with L [A doc; bits] => match getLA bits with Some b => Some (doc, b) | None => None end | _ => None end) vs with
+      | Some vs' => Some {| vf_name := n; vf_dims := d; vf_sim := sim; vf_opt := opt; vf_vecs := vs' |}
+      | None => None
+      end
+  | _ => None
+  end.
+(* (10 batch) -> vector fields of the batch *)
+Definition h_spec_vec (args : list sx) : sx :=
+  match args with
+  | [b] => match batch_of_sx b with Some bt => L (map sx_of_vfield (spec_vfields bt)) | None => sxerr 161 end
+  | _ => sxerr 162
+  end.
+(* (13 ((vfields) ...) (maps ...)) -> merged vector fields *)
+Definition h_merge_vec (args : list sx) : sx :=
+  match args with
+  | [L cs; L ms] =>
+      match mapo (fun c => match c with L vs => mapo vfield_of_sx vs | _ => None end) cs, mapo getLA ms with
+      | Some cs', Some ms' => L (map sx_of_vfield (merge_vfields cs' ms'))
+      | _, _ => sxerr 191
+      end
+  | _ => sxerr 192
+  end.
+(* (d ((doc key bits) ...) (except ...) eligible k) with eligible = () or ((doc ...)) ->
+   ((top-k) (all admissible candidates, best first)) *)
+Definition cand_of_sx (s : sx) : option cand := match s with L [A d; A k; A b] => Some (d, k, b) | _ => None end.
+Definition sx_of_cand (c : cand) : sx := L [A (fst (fst c)); A (snd (fst c)); A (snd c)].
+Definition h_vec_search (args : list sx) : sx :=
+  match args with
+  | [L cs; ex; el; A k] =>
+      match mapo cand_of_sx cs, getLA ex, (match el with L [] => Some None | L [e] => match getLA e with Some l => Some (Some l) | None => None end | _ => None end) with
+      | Some cs', Some ex', Some el' =>
+          L [L (map sx_of_cand (spec_search cs' ex' el' k));
+             L (map sx_of_cand (sort_by_key (filter (admissible ex' el') cs')))]
+      | _, _, _ => sxerr 131
+      end
+  | _ => sxerr 132
+  end.
+
+(* ---- C16: (c (event ...)) with event (0 (except ...)) open, (1) close-handle, (2 idle) expiry pass;
+   answer: after every event (cached created released handles) of the cache machine ---- *)
+Definition vc_event_of_sx (s : sx) : option VecCache.op :=
+  match s with
+  | L [A 0; ex] => match getLA ex with Some l => Some (VecCache.Open (fun d => existsb (Nat.eqb d) (map N.to_nat l))) | None => None end
+  | L [A 1] => Some VecCache.CloseH
+  | L [A 2; idle] => match getBool idle with Some b => Some (VecCache.Tick b) | None => None end
+  | _ => None
+  end.
+Fixpoint vc_trace (s : VecCache.st) (ops : list VecCache.op) : list sx :=
+  match ops with
+  | [] => []
+  | o :: r => let s' := VecCache.step (VecCache.open_fixed []) s o in
+              L [sxb (match VecCache.cache s' with Some _ => true | None => false end);
+                 A (N.of_nat (VecCache.created s')); A (N.of_nat (VecCache.released s')); A (N.of_nat (VecCache.handles s'))]
+              :: vc_trace s' r
+  end.
+Definition h_veccache (args : list sx) : sx :=
+  match args with
+  | [L evs] => match mapo vc_event_of_sx evs with
+               | Some ops => L (vc_trace VecCache.init ops)
+               | None => sxerr 121
+               end
+  | _ => sxerr 122
+  end.
+
+(* ---- C19: (f kind fields op n): kind 0 build with fields (ivf ...), kind 1 merge with fields
+   ((inputs ivf) ...); the n-th call of operation op fails (op 7 = no fault);
+   answer: (error calls-per-operation opened every-index-closed-exactly-once) ---- *)
+Definition opk_of_N (n : N) : option opk :=
+  if n =? 0 then Some Factory else if n =? 1 then Some SetDM else if n =? 2 then Some Train
+  else if n =? 3 then Some Add else if n =? 4 then Some WriteIdx else if n =? 5 then Some ReadIdx
+  else if n =? 6 then Some Recon else None.
+Definition all_ops : list opk := [Factory; SetDM; Train; Add; WriteIdx; ReadIdx; Recon].
+Definition balancedb (s : est) : bool :=
+  forallb (fun i => Nat.eqb (count_occ Nat.eq_dec (closed s) i) 1) (seq 0 (opened s)) &&
+  forallb (fun i => Nat.ltb i (opened s)) (closed s).
+Definition h_vecfault (args : list sx) : sx :=
+  match args with
+  | [A kind; L fields; A op; A n] =>
+      let fails := fun o k => match opk_of_N op with Some o' => opk_eqb o o' && Nat.eqb k (N.to_nat n) | None => false end in
+      let r := if kind =? 0
+               then match mapo getBool fields with Some fs => Some (VecFault.build fails false fs) | None => None end
+               else match mapo (fun f => match f with L [A k; ivf] => match getBool ivf with Some b => Some (N.to_nat k, b) | None => None end | _ => None end) fields with
+                    | Some fs => Some (VecFault.merge fails fs) | None => None end in
+      match r with
+      | Some (f, s) => L [sxb f; L (map (fun o => A (N.of_nat (VecFault.count o (calls s)))) all_ops);
+                         A (N.of_nat (opened s)); sxb (balancedb s)]
+      | None => sxerr 151
+      end
+  | _ => sxerr 152
+  end.
+
 Definition handle (orc : sx -> sx) (req : sx) : sx :=
   match req with
   | L (A k :: args) =>
@@ -270,6 +368,11 @@ Definition handle (orc : sx -> sx) (req : sx) : sx :=
       else if k =? 10 then h_pool args
       else if k =? 11 then h_io args
       else if k =? 14 then h_cancel args
+      else if k =? 16 then h_spec_vec args
+      else if k =? 19 then h_merge_vec args
+      else if k =? 13 then h_vec_search args
+      else if k =? 12 then h_veccache args
+      else if k =? 15 then h_vecfault args
       else if k =? 18 then h_reuse args
       else sxerr 0
   | _ => sxerr 0
